@@ -173,11 +173,10 @@ func (state *Runtime) Let(name string, val interface{}) {
 
 // SetOrLet calls Set() (if a variable with the given name is visible from the current scope) or Let() (if there is no variable with the given name in the current or any parent scope).
 func (state *Runtime) SetOrLet(name string, val interface{}) {
-	_, err := state.resolve(name)
-	if err != nil {
+	// Set() fails if there is no such variable in the current or any parent scope
+	// (resolve() would also find globals and default variables, which Set() can't change)
+	if err := state.Set(name, val); err != nil {
 		state.Let(name, val)
-	} else {
-		state.Set(name, val)
 	}
 }
 
